@@ -39,8 +39,8 @@ DEFS = ['-DPACKAGE_NAME="yara"', '-DPACKAGE_VERSION="4.5.2"', '-DPACKAGE_STRING=
 
 VARIANTS = {
     "plain": ["-O1", "-g"],
-    "asan": ["-O1", "-g", "-fsanitize=address,undefined", "-fno-sanitize-recover=undefined",
-             "-fno-omit-frame-pointer"],
+    # UBSan in recovering mode: reports (signed overflow in llabs(INT64_MIN) etc.) are collected from stderr, not fatal
+    "asan": ["-O1", "-g", "-fsanitize=address,undefined", "-fno-omit-frame-pointer"],
     "tsan": ["-O1", "-g", "-fsanitize=thread"],
 }
 LIBS = ["-lcrypto", "-lm", "-lpthread"]
